@@ -25,6 +25,7 @@ PROPS["C07"] = dict(
         "Zrnt.Proofs.C07.ctx_committee_eq_spec",
         "Zrnt.Proofs.C07.ctx_count_eq_spec",
         "Zrnt.Proofs.C07.ctx_proposer_eq_spec_partial",
+        "Zrnt.Proofs.C07.newEpochsContext_total",
     ],
     modes=[dict(name="committees"), dict(name="c07chain")],
     level="proof",
